@@ -781,7 +781,7 @@ impl PayloadWriter {
                 assert((concat(chunks) + cur).push(value) =~= concat(chunks) + cur2);
                 cur = cur2;
             }
-//@BEFORE 1 if self.current_len() != 0 {
+//@AFTERLOOP 1
         proof { assert(vals.take(vals.len() as int) =~= vals); lemma_concat_len(chunks); lemma_kept_len(vals, true_min, max); }
 //@BEFORE 2 self.buf.push(b'|');
             let ghost pre = *self;
